@@ -38,7 +38,7 @@ def LeafSt.failfast : LeafSt → Bool
   | .text s => s.tt.failfast
   | .tbt s => s.tt.failfast
 
-def LeafSt.text : LeafSt → Option (List Out)
+def LeafSt.textOut : LeafSt → Option (List Out)
   | .text s => some s.out
   | _ => none
 
@@ -70,7 +70,7 @@ def model (i : Input) : Trace :=
   { ff0 := readFF i.shape st0
     leafFF := (leaves i.shape st0).map LeafSt.failfast
     obs := (states i.shape st0 i.hist).map (observe i.shape)
-    texts := (leaves i.shape (run i.shape st0 i.hist)).filterMap LeafSt.text
+    texts := (leaves i.shape (run i.shape st0 i.hist)).filterMap LeafSt.textOut
     exit := i.prog.map fun p => runProg p.1 p.2 }
 
 end TTV.ResC04
